@@ -13,6 +13,7 @@ import (
 	"time"
 
 	"verif/internal/c02"
+	"verif/internal/c08"
 	"verif/internal/chancheck"
 	"verif/internal/evidence"
 	"verif/internal/synccheck"
@@ -104,6 +105,8 @@ func check(id, tier string) int {
 		return synccheck.Run(tier, seed(), workers())
 	case "C02":
 		return c02.Run(tier, seed(), workers())
+	case "C08":
+		return c08.Run(tier, seed(), workers())
 	}
 	fmt.Fprintf(os.Stderr, "unknown property %q\n", id)
 	return 2
@@ -113,6 +116,8 @@ func replay(rp *evidence.Replay) int {
 	switch rp.Kind {
 	case "program:C02":
 		return c02.Replay(rp)
+	case "program:C08":
+		return c08.Replay(rp)
 	case "chanscript":
 		return chancheck.Replay(rp)
 	case "syncscript":
